@@ -74,11 +74,12 @@ theorem encNat_dec (n : Nat) (h : n < 2 ^ 64) : beDec (encNat n) = n := by
   · simp at this
 
 theorem timeMs_back (ns : Nat) (h1 : ns % 1000000 = 0) (h2 : ns < 2 ^ 63) :
-    timeMs ns * 1000000 % 2 ^ 64 = ns := by
+    min (timeMs ns) 9223372036854 * 1000000 = ns := by
   unfold timeMs
   rw [if_pos h2]
   have : ns / 1000000 * 1000000 = ns := by omega
-  rw [this]; omega
+  have hle : ns / 1000000 ≤ 9223372036854 := by omega
+  rw [Nat.min_eq_left hle, this]
 
 theorem timeMs_lt (ns : Nat) (h2 : ns < 2 ^ 63) : timeMs ns < 2 ^ 64 := by
   unfold timeMs; rw [if_pos h2]; omega
